@@ -13,4 +13,13 @@ coq_makefile -f _CoqProject -o Makefile.coq >/dev/null 2>&1
 # without arguments everything is built (setup)
 timeout 2700 make -k -f Makefile.coq -j16 "$@" 2>&1 | grep -v '^COQDEP\|^COQC\|^CoqMakefile' || true
 # make's status (pipefail not set on purpose above): re-run quickly for the status
-timeout 2700 make -k -f Makefile.coq -j16 "$@" >/dev/null 2>&1
+if ! timeout 2700 make -k -f Makefile.coq -j16 "$@" >/dev/null 2>&1; then
+  if [ $# -eq 0 ]; then
+    # setup: build everything that builds; every check rebuilds and validates the files its own property needs
+    # (harness/main.py reports a failing dependency as a broken obligation), so a file that does not compile
+    # must not take the other properties' checks down with it
+    echo "build.sh: some targets did not build (see above); checks fail closed on their own dependencies" >&2
+    exit 0
+  fi
+  exit 2
+fi
